@@ -288,7 +288,28 @@ def budget_for(n: int) -> int:
 PARSERS = ("dex", "axml", "arsc", "apk")
 
 
-def parse(kind: str, data: bytes, keep_log=False, budget=None, clock=True):
+REAL_TIME_LIMIT_S = 40.0      # one parse of a <= 64 KB input takes milliseconds
+_ALARM = [False]
+
+
+def _on_alarm(signum, frame):
+    """Real-time back-stop: native code (regular expressions, ...) is invisible to the step clock."""
+    if not CLOCK.active and not _ALARM[0]:
+        return
+    f = frame
+    owner, where = "?", ""
+    while f is not None:
+        fn = f.f_code.co_filename
+        if any(fn.startswith(p) for p in _PREFIXES):
+            owner = f.f_code.co_name
+            where = "%s:%s" % (os.path.basename(fn), f.f_code.co_name)
+            break
+        f = f.f_back
+    CLOCK.pending = StepStop("native-stall", owner, where)
+    raise CLOCK.pending
+
+
+def parse(kind: str, data: bytes, keep_log=False, budget=None, clock=True, real_timeout=None):
     """Run one of the four entry points named by C35 on `data`.
 
     Returns dict(outcome 'ok'|'exc:<Type>'|'loop'|'slow'|'inconclusive', steps, owner, where, reads, eof_reads, log, obj)
@@ -313,6 +334,15 @@ def parse(kind: str, data: bytes, keep_log=False, budget=None, clock=True):
     else:
         CLOCK.count = 0
         CLOCK.flag_at = None
+    if real_timeout:
+        import signal
+        import threading
+        if threading.current_thread() is threading.main_thread():
+            signal.signal(signal.SIGALRM, _on_alarm)
+            _ALARM[0] = True
+            signal.setitimer(signal.ITIMER_REAL, real_timeout)
+        else:
+            real_timeout = None
     try:
         try:
             if kind == "dex":
@@ -337,6 +367,10 @@ def parse(kind: str, data: bytes, keep_log=False, budget=None, clock=True):
         except (Exception, RecursionError, MemoryError) as e:
             outcome = "exc:" + type(e).__name__
     finally:
+        if real_timeout:
+            import signal
+            signal.setitimer(signal.ITIMER_REAL, 0)
+            _ALARM[0] = False
         CLOCK.stop()
         sys.stdout = saved_stdout
     steps = CLOCK.count + REC.ops
